@@ -27,6 +27,16 @@ CHECKS = {
         note="No parallel bonds / self loops; unique labels for by-label deletion; remove_substituent on bridge bonds only; Conformer edits are C14's.",
         technique="stateful model-based testing (Hypothesis op lists + bounded-exhaustive sequences) with per-step invariants",
     ),
+    "C06": dict(
+        category="exploration",
+        text="Generated sources (nested mutable attributes, hydrogen hints, partial charges, 0-3 conformers) realised as each of the seven classes, copied by "
+             "every route (copy constructors same/wider/narrower, pickle, deepcopy, concatenate, |), then a generated mutation script is run on one side: "
+             "snapshot of the other side must not change, no ndarray memory and no attribute container is shared (identity walk), the copy equals the source "
+             "on the fields of the route, parents and indices are right on both. join's independence is checked in C12.",
+        design_ref="DESIGN.md section 5, C06",
+        note="Cross-class construction compared on common fields; ConformerEnsemble(Molecule) coordinates left to C14; partial charges of a concatenation not asserted.",
+        technique="metamorphic / differential property testing: snapshot-before vs snapshot-after under generated mutation scripts, identity walk for sharing",
+    ),
     "C02": dict(
         category="exploration",
         text="Bounded-exhaustive (all op sequences up to length 4/5 over a 14-letter alphabet on two raw UKVFile handles) plus random "
